@@ -9,12 +9,13 @@ import threading
 
 
 def trace_functions(fn):
+    from vf.harness import REPO
     seen = set()
 
     def tracer(frame, event, arg):
         if event == "call":
             f = frame.f_code.co_filename
-            if "/jsonschema/" in f and "/tests/" not in f and f.startswith("/repo/"):
+            if "/jsonschema/" in f and "/tests/" not in f and f.startswith(REPO + "/"):
                 seen.add(f.split("/jsonschema/")[-1] + ":" + frame.f_code.co_qualname)
         return None
 
